@@ -43,7 +43,6 @@ TraceNext ==
    /\ LET o == Obs[tid] c == CaseOf(o) IN
       bad' = Fails(c) \cup (IF Faithful(o) THEN {} ELSE {"BuildFaithful"})
                       \cup (IF o.kind \notin {"val", "exc"} THEN {"ReturnsExpression"} ELSE {})
-                      \cup (IF Unspecified(c) THEN {"UNSPECIFIED"} ELSE {})
 TraceSpec == TraceInit /\ [][TraceNext]_tvars
 
 \* total verdict: prints the failed clauses with the features of the case
